@@ -4,6 +4,7 @@ import (
 	"crypto/elliptic"
 	"encoding/json"
 	"fmt"
+	"github.com/bnb-chain/tss-lib/v2/crypto/commitments"
 	"math/big"
 	"math/rand"
 	"os"
@@ -155,6 +156,83 @@ func alterField(wire []byte, field string, index int, kind string, rng *rand.Ran
 		mr.Set(fd, protoreflect.ValueOfBytes(mutate(mr.Get(fd).Bytes(), db)))
 	} else {
 		return wire, false
+	}
+	na, err := anypb.New(m)
+	if err != nil {
+		return wire, false
+	}
+	out, err := proto.Marshal(na)
+	if err != nil {
+		return wire, false
+	}
+	return out, true
+}
+
+// commit / de-commit message pairs: a deviator may commit to a list of its own choosing and later open it consistently
+// (the hash matches), so every reader of a de-commitment must check the shape of what comes out.
+type commitPair struct {
+	commitType, commitField, openType, openField string
+	values                                       int // number of committed values the protocol expects
+}
+
+var commitPairs = map[string][]commitPair{
+	"ecdsa_signing": {{"SignRound1Message2", "commitment", "SignRound4Message", "de_commitment", 2},
+		{"SignRound5Message", "commitment", "SignRound6Message", "de_commitment", 4},
+		{"SignRound7Message", "commitment", "SignRound8Message", "de_commitment", 4}},
+	"eddsa_signing":   {{"SignRound1Message", "commitment", "SignRound2Message", "de_commitment", 2}},
+	"ecdsa_keygen":    {{"KGRound1Message", "commitment", "KGRound2Message2", "de_commitment", 4}},
+	"eddsa_keygen":    {{"KGRound1Message", "commitment", "KGRound2Message2", "de_commitment", 4}},
+	"ecdsa_resharing": {{"DGRound1Message", "v_commitment", "DGRound3Message2", "v_decommitment", 4}},
+	"eddsa_resharing": {{"DGRound1Message", "v_commitment", "DGRound3Message2", "v_decommitment", 4}},
+}
+
+// recommitment returns the forged commitment and its consistent opening for a variant: short (one value fewer than expected),
+// long (one more), none (no value), junk (the expected number of values, none of them a curve coordinate pair).
+func recommitment(pair commitPair, variant string) ([]byte, [][]byte) {
+	n := pair.values
+	switch variant {
+	case "short":
+		n--
+	case "long":
+		n++
+	case "none":
+		n = 0
+	}
+	vals := make([]*big.Int, n)
+	for i := range vals {
+		vals[i] = big.NewInt(int64(1000 + i))
+	}
+	cmt := commitments.NewHashCommitmentWithRandomness(big.NewInt(424242), vals...)
+	open := make([][]byte, len(cmt.D))
+	for i, d := range cmt.D {
+		open[i] = d.Bytes()
+	}
+	return cmt.C.Bytes(), open
+}
+
+// setWireField replaces one bytes / repeated-bytes field of a wire message.
+func setWireField(wire []byte, field string, single []byte, list [][]byte) ([]byte, bool) {
+	var a anypb.Any
+	if err := proto.Unmarshal(wire, &a); err != nil {
+		return wire, false
+	}
+	m, err := a.UnmarshalNew()
+	if err != nil {
+		return wire, false
+	}
+	mr := m.ProtoReflect()
+	fd := mr.Descriptor().Fields().ByName(protoreflect.Name(field))
+	if fd == nil {
+		return wire, false
+	}
+	if fd.IsList() {
+		mr.Clear(fd)
+		l := mr.Mutable(fd).List()
+		for _, b := range list {
+			l.Append(protoreflect.ValueOfBytes(b))
+		}
+	} else {
+		mr.Set(fd, protoreflect.ValueOfBytes(single))
 	}
 	na, err := anypb.New(m)
 	if err != nil {
@@ -485,6 +563,30 @@ func runFault(fr faultRunner, f fault, seed int64) faultResult {
 			}
 			return
 		}
+		if strings.HasPrefix(f.Kind, "recommit-") {
+			if c.From.Name != f.Deviator {
+				return
+			}
+			for _, pair := range commitPairs[f.Proto] {
+				if pair.commitType != f.Type {
+					continue
+				}
+				fc, fo := recommitment(pair, strings.TrimPrefix(f.Kind, "recommit-"))
+				if c.Type == pair.commitType {
+					if nw, ok := setWireField(c.Wire, pair.commitField, fc, nil); ok {
+						c.Wire = nw
+						res.Applied++
+					}
+				}
+				if c.Type == pair.openType {
+					if nw, ok := setWireField(c.Wire, pair.openField, nil, fo); ok {
+						c.Wire = nw
+						res.Applied++
+					}
+				}
+			}
+			return
+		}
 		if strings.HasSuffix(f.Kind, "@same") && c.To.Idx != idxOfName(f.Deviator) {
 			seen[key] = c.Wire
 			return
@@ -737,6 +839,23 @@ func faultList(fr faultRunner, tier, prop string) []fault {
 		}
 		all = append(sw, all...)
 	}
+	// consistent re-commitments of the deviator (both properties: no crash, and the deviator is the one blamed)
+	var rec []fault
+	for _, pair := range commitPairs[fr.proto] {
+		for _, d := range devs[fr.proto] {
+			if strings.HasSuffix(fr.proto, "resharing") && !strings.HasPrefix(d, "O") {
+				continue // the dealing commitments come from the old committee
+			}
+			variants := []string{"short", "long", "none", "junk"}
+			if !thorough && fr.cost >= 400 {
+				variants = []string{"short", "none"}
+			}
+			for _, v := range variants {
+				rec = append(rec, fault{fr.proto, d, pair.commitType, pair.commitField, 0, "recommit-" + v})
+			}
+		}
+	}
+	all = append(rec, all...)
 	if thorough || fr.cost <= 2 {
 		return all
 	}
@@ -746,11 +865,11 @@ func faultList(fr faultRunner, tier, prop string) []fault {
 		// the expensive protocols only get the injection faults of their first message type in the quick tier
 		var inj []fault
 		for _, f := range all {
-			if f.Kind == "index-sweep" {
+			if f.Kind == "index-sweep" || strings.HasPrefix(f.Kind, "recommit-") {
 				inj = append(inj, f)
 				continue
 			}
-			if f.Field == "inject" && (len(inj) == 0 || inj[len(inj)-1].Kind == "index-sweep" || inj[len(inj)-1].Type == f.Type && inj[len(inj)-1].Deviator == f.Deviator) {
+			if f.Field == "inject" && (len(inj) == 0 || inj[len(inj)-1].Kind == "index-sweep" || strings.HasPrefix(inj[len(inj)-1].Kind, "recommit-") || inj[len(inj)-1].Type == f.Type && inj[len(inj)-1].Deviator == f.Deviator) {
 				inj = append(inj, f)
 			}
 		}
@@ -760,7 +879,7 @@ func faultList(fr faultRunner, tier, prop string) []fault {
 	}
 	var forced []fault
 	for _, f := range all {
-		if strings.HasSuffix(f.Kind, "@same") {
+		if strings.HasSuffix(f.Kind, "@same") || strings.HasPrefix(f.Kind, "recommit-") {
 			forced = append(forced, f)
 		}
 		// the recorded known finding (duplicate h1/h2 blame) is re-confirmed on every run
